@@ -891,7 +891,48 @@ var witnesses = []witness{
 		}
 		return wantEq("rows a fresh reader merges together", sqlh.QS(dbC, "select k from c order by k"), i(1)+" | "+i(3))
 	}},
-	{id: "F56", props: []string{"C14", "C05"}, known: true, what: "with a node cache, a COMMIT that fails while storing nodes leaves the connection unusable or with the failed statement's row still in its tree", run: func(w *wEnv) string {
+	{id: "F76", props: []string{"C04", "C14", "C16", "C05"}, what: "after a commit that failed while storing nodes (twice, or once after any rollback) the next acknowledged commit published a version referring to a node that was never stored", run: func(w *wEnv) string {
+		for variant := 0; variant < 2; variant++ {
+			t := fmt.Sprintf("t%d", variant)
+			var cl *fakes3.Client
+			sqlh.NextClient("w", func(c *fakes3.Client) { cl = c })
+			r := w.mk(t, "a primary key, b", sqlh.TableOpts{EntriesPerNode: 4, Prefix: t})
+			sqlh.NextClient("", nil)
+			if r != "ok" || cl == nil {
+				return "create: " + r
+			}
+			if r := w.x("insert into " + t + " values (780,'v'),(850,'v'),(920,'v'),(990,'v'),(1060,'v'),(1130,'v'),(1200,'v'),(1270,'v')"); r != "ok" {
+				return "fill: " + r
+			}
+			if variant == 1 {
+				w.x("insert into " + t + " values (780,'dup')") // a statement that is rolled back
+			}
+			cl.Fault = func(idx, midx int, op, key string) error {
+				if op == "PUT" {
+					return awserr.New("InternalError", "injected fault", nil)
+				}
+				return nil
+			}
+			for n := 0; n < 2-variant; n++ {
+				if r := w.x("insert into " + t + " values (301,'lost')"); !strings.HasPrefix(r, "ERR") {
+					return "insert during the outage: " + r
+				}
+			}
+			cl.Fault = nil
+			if r := w.x("insert into " + t + " values (1699,'kept')"); r != "ok" {
+				return "insert after the outage: " + r
+			}
+			rd := "r" + t
+			if r := w.mk(rd, "a primary key, b", sqlh.TableOpts{EntriesPerNode: 4, Prefix: t, ReadOnly: true}); r != "ok" {
+				return "reader: " + r
+			}
+			if e := wantEq(fmt.Sprintf("rows a fresh reader sees (variant %d)", variant), w.q("select count(*), sum(a=301) from "+rd), i(9)+","+i(0)); e != "" {
+				return e
+			}
+		}
+		return ""
+	}},
+	{id: "F56", props: []string{"C14", "C05", "C04", "C16"}, what: "with a node cache, a COMMIT that fails while storing nodes leaves the connection unusable or with the failed statement's row still in its tree", run: func(w *wEnv) string {
 		for fail := 0; fail < 3; fail++ {
 			t := fmt.Sprintf("t%d", fail)
 			var cl *fakes3.Client
